@@ -97,7 +97,7 @@ def _node_name(scheme, level_idx, k, n_at_level, rnd):
                                   if n_at_level > 1 else
                                   (k + level_idx) % 16] + 'x'
     if scheme == 'C':
-        decorations = ['a,b', 'c "q"', "d'e", '#f', ' g', 'h;i', 'j\tk']
+        decorations = ['a,b', 'c "q"', 'l\u00f6\u00df', "d'e", '#f', ' g', 'h;i', 'j\tk']
         return f'{decorations[(k + level_idx) % len(decorations)]}{level_idx}{k}'
     raise ValueError(scheme)
 
